@@ -1,4 +1,4 @@
-import SqlgrepModel.Lemmas.AggFollowRun
+import SqlgrepModel.Lemmas.AggTotal
 /-
 C11 — incremental (tail -f) results equal a batch run over the same prefix.
 
@@ -108,9 +108,9 @@ theorem follow_history_coupled {O : Oracles} {q : AggStmt} (envs : List Env) {st
 
 /- Full statement (`follow_eq_batch_prefix`, aggregate half): for every aggregate statement without LIMIT, every input
    and every k, the table shown after the k-th line in follow mode equals the table of a batch run over the first k
-   lines. Proved below under the hypotheses inherited from `agg_refines_spec_partial` (C04): the specification fixes the
-   outcome for that prefix (no evaluation error, exact keys, …), the prefix is outside the open findings D10/D15, and
-   the batch run over the prefix does not fail. What is missing for the unconditional statement is a direct simulation
+   lines. Proved below under the hypotheses inherited from `agg_refines_spec` (C04): the specification fixes the
+   outcome for that prefix (no evaluation error, exact keys, …) and the prefix is outside the open findings D10/D15
+   (the batch run over the prefix then succeeds, by the totality half of the refinement). What is missing for the unconditional statement is a direct simulation
    between the follow-mode and the batch-mode state (which would also cover the D10 groups and error cases); those
    cases are decided by the correspondence and by the prefix relation evaluated on the implementation. -/
 
@@ -118,13 +118,20 @@ theorem follow_history_coupled {O : Oracles} {q : AggStmt} (envs : List Env) {st
 admits: the table shown for it is exactly the table a batch run (update only per line, one result at the end) over
 `pre ++ [env]` produces. -/
 theorem follow_eq_batch_prefix_partial {O : Oracles} {q : AggStmt} (hwf : StmtWF q) (hlim : q.limit = none)
-    (pre : List Env) (env : Env) {sf sf1 sf2 sb : AggState} {out : RowOut}
+    (pre : List Env) (env : Env) {sf sf1 sf2 : AggState} {out : RowOut}
     (hfollow : followRun O q pre {} = .ok sf) (hupd : aggUpdateRow O q sf env = .ok (sf1, true))
     (hres : aggResult O q sf1 = .ok (sf2, out))
-    (hbatch : aggRun O q (pre ++ [env]) {} = .ok sb)
     {t : List (List Value)} (hspec : table O q (pre ++ [env]) = some t) (hclass : deviationClass O q (pre ++ [env]) = "") :
-    finalResult O q { agg := sb } = .ok out :=
-  follow_table_eq_batch hwf hlim pre env hfollow hupd hres hbatch hspec hclass
+    (aggRun O q (pre ++ [env]) {}).bind (fun sb => finalResult O q { agg := sb }) = .ok out := by
+  obtain ⟨sb, hsb⟩ := (by
+    cases hr : keyedRows O q (pre ++ [env]) with
+    | none => simp [table, hr] at hspec
+    | some rows =>
+      obtain ⟨hfolds, hkeys⟩ := foldsOk_of_spec hwf hr hspec hclass
+      exact aggRun_progress (pre ++ [env]) (coupled_init O q) hr (by simpa using hfolds) hkeys :
+    ∃ sb, aggRun O q (pre ++ [env]) {} = .ok sb)
+  rw [hsb]
+  exact follow_table_eq_batch hwf hlim pre env hfollow hupd hres hsb hspec hclass
 
 /-- `SELECT COUNT(*) FROM t` -/
 def exCount : AggStmt :=
@@ -132,9 +139,10 @@ def exCount : AggStmt :=
     having := none, havingAggs := [], havingKeys := [], havingVisit := [], limit := none, distinct := false }
 
 /-- non-vacuity: after one line fed incrementally, the second line's table (`2`) is the batch table over both lines -/
-example : ∃ sf sf1 sf2 sb out, followRun {} exCount [{}] {} = .ok sf ∧ aggUpdateRow {} exCount sf {} = .ok (sf1, true) ∧
-    aggResult {} exCount sf1 = .ok (sf2, out) ∧ aggRun {} exCount [{}, {}] {} = .ok sb ∧
-    out.rows = [[.int 2]] ∧ finalResult {} exCount { agg := sb } = .ok out :=
-  ⟨_, _, _, _, _, rfl, rfl, rfl, rfl, rfl, rfl⟩
+example : ∃ sf sf1 sf2 out, followRun {} exCount [{}] {} = .ok sf ∧ aggUpdateRow {} exCount sf {} = .ok (sf1, true) ∧
+    aggResult {} exCount sf1 = .ok (sf2, out) ∧ table {} exCount ([({} : Env)] ++ [({} : Env)]) = some [[.int 2]] ∧
+    deviationClass {} exCount ([({} : Env)] ++ [({} : Env)]) = "" ∧ out.rows = [[.int 2]] ∧
+    (aggRun {} exCount ([({} : Env)] ++ [({} : Env)]) {}).bind (fun sb => finalResult {} exCount { agg := sb }) = .ok out :=
+  ⟨_, _, _, _, rfl, rfl, rfl, rfl, rfl, rfl, rfl⟩
 
 end Sqlgrep.Props.C11
